@@ -69,13 +69,33 @@ def leaf_edits(doc, rng, per_leaf=("+1", "-1", "0"), limit=None):
     for k in idxs:
         path, v = lv[k]
         name = ".".join(str(p) for p in path if not isinstance(p, int) and p != "CL03")
-        for e in per_leaf:
-            nv = v + 1 if e == "+1" else v - 1 if e == "-1" else 0
+        for e in tuple(per_leaf) + ("+2^128", "+2^200"):
+            # the high edits leave every low-order window of the value unchanged (a comparison on a truncated value misses them)
+            nv = v + 1 if e == "+1" else v - 1 if e == "-1" else v + (1 << 128) if e == "+2^128" else v + (1 << 200) if e == "+2^200" else 0
             if nv == v: continue
             out.append((name, e, clj.set_leaf(doc, path, nv)))
         if k + 1 < len(lv) and lv[k + 1][1] != v:
             d2 = clj.set_leaf(clj.set_leaf(doc, path, lv[k + 1][1]), lv[k + 1][0], v)
             out.append((name, "swap", d2))
+    return out
+
+def list_edits(doc):
+    """structural edits of every list in the document: last element removed, list emptied, last element duplicated"""
+    import copy
+    out = []
+    def walk(t, path):
+        if isinstance(t, dict):
+            if clj.is_int(t): return
+            for k, v in t.items(): walk(v, path + (k,))
+        elif isinstance(t, list):
+            for kind in ("drop-last", "empty", "dup-last"):
+                if not t: continue
+                d = copy.deepcopy(doc); u = d
+                for p in path[:-1]: u = u[p]
+                u[path[-1]] = t[:-1] if kind == "drop-last" else [] if kind == "empty" else t + [t[-1]]
+                out.append((".".join(str(p) for p in path if p != "CL03"), kind, d))
+            for i, v in enumerate(t): walk(v, path + (i,))
+    walk(doc, ())
     return out
 
 def subtree_transplants(A, B):
@@ -237,6 +257,12 @@ class C14:
                                 dr_ = _cp.deepcopy(f["zk"]); dr_["CL03"]["proof_r"] = _cp.deepcopy(doc2["CL03"]["proof_r"]); dr_["CL03"]["range_proof_r"] = _cp.deepcopy(doc2["CL03"]["range_proof_r"])
                                 pp.append(("proof_r+range_proof_r", dr_))
                                 S.run([zkver_line(x, f, zk=d) for _, d in pp], expect=true_, label=["recombination:zkpok." + nm for nm, _ in pp])
+                                le_ = list_edits(f["zk"])
+                                lines_ = []; labs_ = []
+                                for nm, kd, d in le_:
+                                    lines_.append(zkver_line(x, f, zk=d)); labs_.append("list-edit:zkpok.%s:%s" % (nm, kd))
+                                    lines_.append(blindsign_line(x, f, zk=d)); labs_.append("gate:list-edit:zkpok.%s:%s" % (nm, kd))
+                                S.run(lines_, expect=[refused if l.startswith("gate") else reject for l in labs_], label=labs_)
                             # pairs from an issuance proof about OTHER attribute values (another commitment, same keys): F15
                             if stats.get("foreign_pairs", 0) < (6 if tier == "quick" else 200):
                                 f3 = issue(S, x, [Q.rmsg(rng) for _ in range(n)], U, trusted, label="triv:issue")
@@ -317,6 +343,9 @@ class C15:
                     if n >= 2:
                         b2 = list(x.bases); b2[0], b2[1] = b2[1], b2[0]; mm("other-bases", bases=b2)
                     mm("other-commitment-key-h", cpk=[x.cpk[0], x.cpk[1] * x.cpk[1] % N] + x.cpk[2:])
+                    for dN in (1, -1, 2):
+                        mm("other-commitment-key-N", cpk=[x.cpk[0] + dN] + x.cpk[1:])
+                    mm("other-commitment-key-N", cpk=[x.cpk[1]] + x.cpk[1:])
                     mm("other-commitment-key-g0", cpk=x.cpk[:2] + [x.cpk[2] * x.cpk[1] % N] + x.cpk[3:])
                     others = [u for u in Q.all_subsets(n) if u != U and len(u) == len(U)]
                     if others:
@@ -345,6 +374,8 @@ class C15:
                             S.run([spokver_line(x, d, msgs, U) for _, d in tp], expect=reject, label=["transplant:spok." + nm for nm, _ in tp])
                             pp = pair_transplants(doc, doc2, "proofs_commited_mi", "range_proofs_commited_mi")
                             S.run([spokver_line(x, d, msgs, U) for _, d in pp], expect=true_, label=["recombination:spok." + nm for nm, _ in pp])
+                            le_ = list_edits(doc)
+                            S.run([spokver_line(x, d, msgs, U) for _, _, d in le_], expect=reject, label=["list-edit:spok.%s:%s" % (nm, kd) for nm, kd, _ in le_])
                         # ... the same pair taken from a proof about ANOTHER attribute vector (another signature, same keys): the pair
                         # says nothing about the attributes of THIS signature (F15)
                         if U and stats.get("foreign_pairs", 0) < (6 if tier == "quick" else 200):
@@ -435,6 +466,15 @@ class C16:
                             el = leaf_edits(doc, rng, limit=(24 if tier == "quick" else None))
                             stats["field_edits"] += len(el)
                             S.run([ver_line(d, a, b) for _, _, d in el], expect=reject, label=[edit_label("range", nm, e) for nm, e, _ in el])
+                        # sub-documents of a SECOND honest proof for the same commitment and interval: no single one may be moved over
+                        if suite == "toy" and stats.get("subdoc_transplants", 0) < (40 if tier == "quick" else 1500) and stats["proofs"] % 4 == 1:
+                            rp2 = S.run([line], expect="ok", label="triv:prove-second")[0]
+                            if rp2.status == "OK":
+                                tp = subtree_transplants({"CL03": doc}, {"CL03": rp2.json(0)})
+                                stats["subdoc_transplants"] = stats.get("subdoc_transplants", 0) + len(tp)
+                                # (the whole proof_of_tolerance is a self-contained proof about E' = E^(2^T): a recombination, accepted)
+                                S.run([ver_line(d["CL03"], a, b) for _, d in tp], expect=[true_ if nm == "proof_of_tolerance" else reject for nm, _ in tp],
+                                      label=[("recombination:range." if nm == "proof_of_tolerance" else "transplant:range.") + nm for nm, _ in tp])
                         # transplant forgeries built from this honest proof
                         if a >= 0 and stats["transplants"] < (12 if tier == "quick" else 200) and stats["proofs"] % 3 == 1:
                             for y in (b + 1000, b + 1, a - 1, a - 2**40, rng.getrandbits(300)):
@@ -559,6 +599,45 @@ def difference_attack(S, doc, challenges, hidden, what):
                                "(s[%d] - s[%d]) / %s = %s: the two responses share their blinding" % (a, b, cname, ("m_%d - m_%d" % hit[0]) if hit else str(q)[:40]), [name])
     return n
 
+def cross_vector_attack(S, doc, challenges, hidden_in_order, what):
+    """two response vectors of the same length answered under DIFFERENT challenges (e.g. s1 of the multi-secret proof and d of
+    the two-commitment proof): with independent blindings (v[k] - w[k]) / (c - c') is meaningless; if the two protocols share their
+    nonces it is the hidden attribute itself.  hidden_in_order: the hidden attributes in the order of the vectors."""
+    P = _p(); n = 0
+    vecs = [(".".join(str(p) for p in path if p != "CL03"), v) for path, v in response_vectors(doc)]
+    for ia in range(len(vecs)):
+        for ib in range(len(vecs)):
+            if ia == ib or len(vecs[ia][1]) != len(vecs[ib][1]): continue
+            for (c1n, c1) in challenges:
+                for (c2n, c2) in challenges:
+                    if c1 == c2: continue
+                    for k in range(len(vecs[ia][1])):
+                        n += 1
+                        num = vecs[ia][1][k] - vecs[ib][1][k]
+                        if num % (c1 - c2) == 0 and k < len(hidden_in_order) and num // (c1 - c2) == hidden_in_order[k]:
+                            P.fail(S, "shared-nonce-across-protocols|%s:%s[%d]-%s[%d]" % (what, vecs[ia][0], k, vecs[ib][0], k),
+                                   "(%s[%d] - %s[%d]) / (%s - %s) is the hidden attribute: the two protocols answer with the same blinding" % (vecs[ia][0], k, vecs[ib][0], k, c1n, c2n), [what])
+    return n
+
+def sqrt_leak_attack(S, rp, a, b, secret, what, tol=4):
+    """the property's attacker on ONE Boudot range proof: the same-secret sub-proofs answer d = omega + c x_1 with the full 256-bit
+    challenge and a blinding omega far smaller than c x_1, so floor(d / c) ~ x_1 = floor(sqrt(2^T (x - a) + theta)) and
+    x ~ (floor(d / c)^2 + aa) / 2^T (resp. (bb - floor(d / c)^2) / 2^T from the upper half).  Returns the number of recomputations."""
+    P = _p(); n = 0
+    T = range_T(a, b); sq = math.isqrt(b - a)
+    aa = (1 << T) * a - (1 << (BL + BT + T // 2 + 1)) * sq
+    bb = (1 << T) * b + (1 << (BL + BT + T // 2 + 1)) * sq
+    pt = rp["proof_of_tolerance"]
+    for half, rec in (("a", lambda xh: ((xh * xh) + aa) >> T), ("b", lambda xh: (bb - xh * xh) >> T)):
+        ss = pt["proof_of_square_" + half]["proof_ss"]
+        d = clj.get(ss, ("d",)); c = clj.get(ss, ("challenge",))
+        if c <= 0: continue
+        est = rec(d // c); n += 1
+        if abs(est - secret) <= tol:
+            P.fail(S, "F16:range-proof-square-root-leak|%s:proof_of_square_%s" % (what, half),
+                   "(floor(d / challenge))^2 rescaled = secret %+d: the range proof hands over the value it is about" % (est - secret), [what])
+    return n
+
 class C17:
     LEVEL = "proof"
     CL03 = True
@@ -579,18 +658,31 @@ class C17:
                 sig = Q.sign(S, x, msgs)
                 subsets = list(Q.all_subsets(n, nonempty=True)) if (suite == "toy" and tier != "quick") else [[0], list(range(n))]
                 for U in subsets:
-                    f = issue(S, x, msgs, U, False, label="triv:issue")
+                  for trusted in (False, True):
+                    f = issue(S, x, msgs, U, trusted, label="triv:issue")
                     if f:
+                        if trusted and f["zk"]["CL03"]["proof_C_Ctrusted"]:
+                            pm_ = f["zk"]["CL03"]["proof_commited_msgs"]
+                            ch2 = [("c(multi-secret)", sha_int("".join(str(x.bases[i]) for i in (U if n > 1 else [0])) + str(b) + str(f["C"][0]) + str(clj.get(pm_, ("t",))))),
+                                   ("c(trusted)", clj.get(f["zk"]["CL03"]["proof_C_Ctrusted"], ("challenge",)))]
+                            stats["recomputations"] += cross_vector_attack(S, f["zk"], ch2, [msgs[i] for i in U], "zkpok")
                         secrets = [("m_%d" % i, msgs[i]) for i in U] + [("r", f["C"][1])]
                         cands = [msgs[U[0]], msgs[U[0]] ^ 1]
                         stats["recomputations"] += opening_attacks(S, f["zk"], N, pairs, secrets, None, cands, "zkpok")
                         pm = f["zk"]["CL03"]["proof_commited_msgs"]
                         chal = [("c(multi-secret)", sha_int("".join(str(x.bases[i]) for i in (U if n > 1 else [0])) + str(b) + str(f["C"][0]) + str(clj.get(pm, ("t",)))))]
                         stats["recomputations"] += difference_attack(S, f["zk"], chal, [(i, msgs[i]) for i in U], "zkpok")
+                        for k, i_ in enumerate(U):
+                            stats["recomputations"] += sqrt_leak_attack(S, f["zk"]["CL03"]["range_proofs_mi"][k], 0, 2 ** x.P["lm"] - 1, msgs[i_], "zkpok.range_proofs_mi[m_%d]" % i_)
+                        stats["recomputations"] += sqrt_leak_attack(S, f["zk"]["CL03"]["range_proof_r"], 0, 2 ** x.P["ln"] - 1, f["C"][1], "zkpok.range_proof_r[r]")
                         stats["proofs"] += 1
                     r = S.run([spokgen_line(x, sig, msgs, U)], expect="ok", label="triv:proof_gen")[0]
                     if r.status == "OK":
                         doc = r.json(0); dr = parse_draws(r)
+                        for k, i_ in enumerate(U):
+                            stats["recomputations"] += sqrt_leak_attack(S, doc["CL03"]["range_proofs_commited_mi"][k], 0, 2 ** x.P["lm"] - 1, msgs[i_], "spok.range_proofs_commited_mi[m_%d]" % i_)
+                        le_ = x.P["le"]
+                        stats["recomputations"] += sqrt_leak_attack(S, doc["CL03"]["range_proof_e"], 2 ** (le_ - 1) + 1, 2 ** le_ - 1, sig[0], "spok.range_proof_e[e]")
                         secrets = [("m_%d" % i, msgs[i]) for i in U] + [("e", sig[0]), ("v", sig[2])] + [("draw_%d" % k, v) for k, (kd, pr, v) in enumerate(dr) if kd == "bits" and pr == [x.P["ln"]]][:6]
                         cands = [msgs[U[0]], msgs[U[0]] ^ 1]
                         stats["recomputations"] += opening_attacks(S, doc, N, pairs, secrets, sig[2], cands, "spok")
@@ -752,6 +844,8 @@ class C19:
                         secrets += [("randomness_%d" % k, v) for k, (kd, prm, v) in enumerate(f["zk_draws"]) if kd == "bits" and prm == [ln]]
                         q_, r_ = masking_attack(S, f["zk"], chal, secrets, "zkpok"); stats["quotients"] += q_; stats["responses"] += r_; stats["proofs"] += 1
                         stats["quotients"] += difference_attack(S, f["zk"], chal[:1] + chal[-1:], [(i, msgs[i]) for i in U], "zkpok")
+                        if zk["proof_C_Ctrusted"]:
+                            stats["quotients"] += cross_vector_attack(S, f["zk"], chal[:1] + chal[-1:], [msgs[i] for i in U], "zkpok")
                     r = S.run([spokgen_line(x, sig, msgs, U)], expect="ok", label="triv:proof_gen")[0]
                     if r.status == "OK":
                         doc = r.json(0); dr = parse_draws(r); sp = doc["CL03"]["spok"]
@@ -762,4 +856,9 @@ class C19:
                         secrets += [("randomness_%d" % k, v) for k, (kd, prm, v) in enumerate(dr) if kd == "bits" and prm == [ln]]
                         q_, r_ = masking_attack(S, doc, chal, secrets, "spok"); stats["quotients"] += q_; stats["responses"] += r_; stats["proofs"] += 1
                         stats["quotients"] += difference_attack(S, doc, chal[:1], [(i, msgs[i]) for i in U], "spok")
+                        # the responses INSIDE the range proofs (quotient by the stored challenge, squared and rescaled): e and the hidden attributes
+                        le_ = x.P["le"]
+                        stats["quotients"] += sqrt_leak_attack(S, doc["CL03"]["range_proof_e"], 2 ** (le_ - 1) + 1, 2 ** le_ - 1, sig[0], "spok.range_proof_e[e]")
+                        for k, i_ in enumerate(U):
+                            stats["quotients"] += sqrt_leak_attack(S, doc["CL03"]["range_proofs_commited_mi"][k], 0, 2 ** x.P["lm"] - 1, msgs[i_], "spok.range_proofs_commited_mi[m_%d]" % i_)
         return stats
